@@ -722,7 +722,16 @@ class ExpressionEvaluator:
         """Evaluate an AST node and return its value."""
         method = f'_eval_{type(node).__name__}'
         if hasattr(self, method):
-            return getattr(self, method)(node)
+            try:
+                return getattr(self, method)(node)
+            except ExpressionError:
+                raise
+            except Exception as e:
+                # Operands of the wrong type, exhausted iterators, bad regexes etc. are
+                # evaluation failures of this expression, not crashes of the caller.
+                raise ExpressionError(
+                    f"Cannot evaluate expression: {type(e).__name__}: {e}"
+                ) from e
         raise ExpressionError(f"Cannot evaluate node type: {type(node).__name__}")
 
     def _eval_Expression(self, node: ast.Expression) -> Any:
@@ -896,7 +905,16 @@ class TransactionEvaluator:
         """Evaluate an AST node and return its value."""
         method = f'_eval_{type(node).__name__}'
         if hasattr(self, method):
-            return getattr(self, method)(node)
+            try:
+                return getattr(self, method)(node)
+            except ExpressionError:
+                raise
+            except Exception as e:
+                # Operands of the wrong type, exhausted iterators, bad regexes etc. are
+                # evaluation failures of this expression, not crashes of the caller.
+                raise ExpressionError(
+                    f"Cannot evaluate expression: {type(e).__name__}: {e}"
+                ) from e
         raise ExpressionError(f"Cannot evaluate node type: {type(node).__name__}")
 
     def _eval_Expression(self, node: ast.Expression) -> Any:
